@@ -132,36 +132,13 @@ def run(ctx, chk):
     chk.ob(nlib >= 200, "C20/library-floor/%d" % nlib, "library obligation sites examined: %d" % nlib, sample={"library_obligation_sites": nlib, "status": "all discharged"})
     # ---- (g) what println!/eprintln! call back into: a derived Debug impl cannot panic; a
     #      hand-written Debug/Display impl of a library type is interpreted on an arbitrary value
-    from ..symval import sym_of_type
-    nfmt = nman = 0
-    for b in sorted(lf.bodies.values(), key=lambda b: b["def"]):
-        tr = b.get("impl_trait") or ""
-        if not (tr.endswith("fmt::Debug") or tr.endswith("fmt::Display")) or not b["def"].endswith("::fmt"):
-            continue
-        nfmt += 1
-        if b.get("derived"):
-            continue
-        nman += 1
-        tyname = (b.get("impl_self") or "?")
-        FI = Interp(lf, xform.EXT)
-        st0 = St()
-        try:
-            selfv = sym_of_type(FI, st0, b["locals"][1], "self")
-            fmtv = VRef(FI.new_cell(st0, VOpaque("env:formatter")), (), True)
-            FI.exec_fn(st0, b, [selfv, fmtv])
-            c01.finish_leaves(FI)
-        except Unanalysable as u:
-            chk.ob(False, "C20/manual-fmt/unanalysable/%s" % tyname, "reason=unanalysable: hand-written %s for %s cannot be followed: %s" % (tr.rsplit("::", 1)[-1], tyname, u.what))
-            continue
-        bad = [(site, o) for site, o in sorted(FI.obl.items(), key=lambda x: repr(x[0])) if o.failures]
-        for site, o in bad:
-            chk.ob(False, "C20/manual-fmt/panic/%s/%s" % (tyname, o.kind.replace(" ", "_")),
-                   "printing a value of %s can panic: %s at %s (%s): %s - the tool prints every decoded message and every error with {:?}" % (tyname, o.kind, o.loc, site[0], o.failures[0][0]))
-        for k2, uses in sorted(FI.unknown_ext.items()):
-            okk = k2.startswith("core::fmt") or k2.startswith("core:fmt") or "::fmt::" in k2 or "Formatter" in k2 or "Debug" in k2
-            chk.ob(okk, "C20/manual-fmt/unknown-external/%s/%s" % (tyname, k2), "hand-written %s for %s calls %s, which has no contract" % (tr.rsplit("::", 1)[-1], tyname, k2))
-        if not bad:
-            chk.ob(True, sample={"manual_fmt_impl": tyname, "trait": tr.rsplit("::", 1)[-1], "status": "no panic on any value"})
+    from .fmtimpls import analyse_manual_fmt
+    nfmt, nman, findings = analyse_manual_fmt(lf)
+    for (kind, tyname, trn, key, msg) in findings:
+        chk.ob(False, "C20/manual-fmt/%s/%s/%s" % (kind, tyname, key),
+               msg + " - the tool prints every decoded message and every error through these impls")
+    if not findings:
+        chk.ob(True, sample={"fmt_impls": nfmt, "hand_written": nman, "status": "no panic and no error of their own on any value"})
     chk.ob(nfmt >= 40, "C20/fmt-impls-floor/%d" % nfmt, "only %d formatting impls found in the library" % nfmt, sample={"fmt_impls": nfmt, "hand_written": nman})
     # ---- (f) the reassembly relation behind the records (std build, the one the tool is built with)
     from .c05 import compare
